@@ -337,6 +337,50 @@ theorem C11_history (geom : Geom) (o₀ : OnDisk) (bits₀ : Bytes) (ops : List 
           refine ih n _ (hist_cycle geom o₀ bits₀ n o hg he hf hc0 ?_ g) (by rw [← e]; exact hb)
           rw [e] at hb; push_cast at hb; omega
 
+/-! ### path names: "from any working directory"
+
+    The object keeps the *resolved* path it was created with; a later reopen names the file by an
+    absolute path or by a path relative to the then-current directory.  The tie checks the real
+    constructor against `resolvePath`/`lookupPath` (relative, absolute, `..`, other directories). -/
+
+/-- an absolute path designates the same file from every working directory -/
+theorem C11_abs_path_any_cwd (cwd cwd' arg : PathC) :
+    resolvePath cwd true arg = resolvePath cwd' true arg := rfl
+
+/-- hence reopening by absolute path finds the file from every working directory -/
+theorem C11_reopen_any_cwd (fs : List (PathC × Nat)) (arg : PathC) (h : Nat)
+    (hfs : lookupPath fs (resolvePath [] true arg) = some h) (cwd : PathC) :
+    lookupPath fs (resolvePath cwd true arg) = some h := hfs
+
+private theorem normPath_plain (acc l : PathC) (hl : ∀ c ∈ l, c ≠ "." ∧ c ≠ "..") :
+    normPath acc l = acc.reverse ++ l := by
+  induction l generalizing acc with
+  | nil => simp [normPath]
+  | cons c cs ih =>
+      have hc := hl c (by simp)
+      have : normPath acc (c :: cs) = normPath (c :: acc) cs := by
+        rw [normPath]
+        · exact fun e => hc.1 e
+        · exact fun e => hc.2 e
+      rw [this, ih _ (fun x hx => hl x (by simp [hx]))]
+      simp
+
+/-- a relative name is resolved against the working directory: from the directory it is relative to
+    it designates the file, `cwd ++ rel` (no `.`/`..` components) -/
+theorem C11_rel_path (cwd rel : PathC) (h1 : ∀ c ∈ cwd, c ≠ "." ∧ c ≠ "..") (h2 : ∀ c ∈ rel, c ≠ "." ∧ c ≠ "..") :
+    resolvePath cwd false rel = cwd ++ rel := by
+  unfold resolvePath
+  simp only [Bool.false_eq_true, if_false]
+  rw [normPath_plain [] (cwd ++ rel) (by
+    intro c hc
+    rcases List.mem_append.mp hc with h | h
+    · exact h1 c h
+    · exact h2 c h)]
+  rfl
+
+example : resolvePath ["w", "sub"] false ["..", "disk.blm"] = ["w", "disk.blm"] := by decide
+example : lookupPath [(["w", "disk.blm"], 1)] (resolvePath ["elsewhere"] false ["disk.blm"]) = none := by decide
+
 /-! ### non-vacuity (tests) -/
 
 example : ∃ o, OnDisk.create 3 1036831949 2 10 = .ok o ∧ Shape o [0, 0] o.count := by
